@@ -14,7 +14,7 @@ for l in open("/verif/known_findings.jsonl"):
     if e.get("status")=="fixed": print(e["commit"]+":"+e["property"])
 ' | sort -u); fi
 mkdir -p /tmp/mutant_root && cp /verif/known_findings.jsonl /tmp/mutant_root/
-out=/verif/seeded/REVERTS.md
+out=${REVERTS_OUT:-/verif/seeded/REVERTS.md}
 { echo "# Reverting each recorded fix (tools/try_reverts.sh)"; echo
   echo "| commit | property | subject | quick check on the reverted tree |"; echo "|---|---|---|---|"; } > "$out"
 for cp in $list; do
@@ -25,12 +25,21 @@ for cp in $list; do
     echo "| $c | $p | $subj | not tried: later commits touch the same lines |" >> "$out"; echo "$c skip"; continue
   fi
   git -C /repo apply -R /tmp/revert.diff
-  log=/tmp/revert_${c}_${p}.log
-  VERIF_ROOT=/tmp/mutant_root ./check "$p" quick > "$log" 2>&1; rc=$?
-  n=$(grep -c '^VIOLATION' "$log")
-  first=$(grep -E '^violation:' "$log" | head -1 | cut -c1-160 | tr '|' '/')
+  r=""
+  if ! ./check build > /tmp/revert_build.log 2>&1; then
+    r="not tried: the tree does not compile with this commit alone reverted"; rc=2; n=0
+  else
+    # the property the fix was recorded under first, then the other two
+    for q in "$p" C06 C07 C08; do
+      log=/tmp/revert_${c}_${q}.log
+      VERIF_ROOT=/tmp/mutant_root ./check "$q" quick > "$log" 2>&1; rc=$?
+      n=$(grep -c '^VIOLATION' "$log")
+      first=$(grep -E '^violation:' "$log" | head -1 | cut -c1-160 | tr '|' '/')
+      if [ "$rc" = 1 ] && [ "$n" -gt 0 ]; then r="flagged by $q quick ($n): $first"; break; fi
+    done
+    [ -n "$r" ] || r="**NOT flagged** by any quick check"
+  fi
   git -C /repo checkout -- .
-  if [ "$rc" = 1 ] && [ "$n" -gt 0 ]; then r="flagged ($n): $first"; else r="**NOT flagged** (exit $rc)"; fi
   echo "| $c | $p | $subj | $r |" >> "$out"; echo "$c $p exit=$rc violations=$n"
 done
 ./check build >/dev/null 2>&1
